@@ -1,6 +1,7 @@
 """e2e engine (DESIGN 2.2): the real sanitised ninja binary with real processes in scratch trees.
 Commands are `vtool` invocations with the same command function as nsim, so the same reference
 model (vlib/model.py) supplies clean contents."""
+import hashlib
 import json, os, re, shutil, signal, subprocess, time, random, threading
 from concurrent.futures import ThreadPoolExecutor
 from . import build, util, simlib, model, gen
@@ -1218,6 +1219,72 @@ def c14_entry_case(ctx, seed):
                           (seed, mode, la, rca, list(rana), rcb, list(ranb), errb), rep)
             return
     ctx.count("entry_point_steps_equal", len(a))
+
+
+def c14_dyndep_case(ctx, seed):
+    """The dyndep file as an entry point for path names: the statement it is about, implicit outputs and implicit inputs
+    (a generated header among them) spelt canonically in one project and respelled in its twin.  Both must do the same thing
+    at every step - in particular the generator of the header runs before the consumer and an edit of its source reaches the
+    consumer's output in one build."""
+    rng = random.Random(seed)
+    P = {"out": "o/x.o", "mod": "o/x.mod", "src": "s/a.c", "gen": "h/gen.h", "hdr2": "h/sub/g.h", "fin": "bin/final", "dd": "x.dd"}
+    ready = rng.random() < 0.5        # the dyndep file exists from the start, or is made by a statement of the build
+    results = {}
+    rep = {"seed": seed, "ready": ready}
+    for variant in ("canonical", "respelled"):
+        sp = (lambda k: P[k]) if variant == "canonical" else (lambda k: _respell(rng, P[k]))
+        ddtext = "ninja_dyndep_version = 1\nbuild %s | %s: dyndep | %s %s\n" % (sp("out"), sp("mod"), sp("gen"), sp("hdr2"))
+        L = ["rule cc", "  command = cat s/a.c h/gen.h h/sub/g.h > o/x.o && cp o/x.o o/x.mod", "  description = CC",
+             "rule gen", "  command = cp $in $out", "  description = GEN",
+             "rule cat", "  command = cat $in > $out", "  description = CAT",
+             "rule mkdd", "  command = cp $in $out", "  description = MKDD",
+             "build h/gen.h: gen conf/gen.in",
+             "build o/x.o: cc s/a.c || x.dd", "  dyndep = x.dd",
+             "build bin/final: cat o/x.o o/x.mod"]
+        if not ready:
+            L.append("build x.dd: mkdd x.dd.in")
+        L.append("default bin/final")
+        t = Tree()
+        try:
+            for k, v in (("s/a.c", "// src\n"), ("h/sub/g.h", "// g\n"), ("conf/gen.in", "// gen 0\n")):
+                t.write(k, v)
+            t.write("x.dd" if ready else "x.dd.in", ddtext)
+            t.write("build.ninja", "\n".join(L) + "\n")
+            rep["dyndep_" + variant] = ddtext
+            seq = []
+
+            def step(args, label):
+                rc, so, se = t.run(args)
+                txt = (so + se).decode("latin-1")
+                ran = re.findall(r"\] (CC|CAT|GEN|MKDD)", txt)
+                final = t.read("bin/final")
+                seq.append((label, rc, tuple(ran), "no work to do" in txt, util.san_signature(txt) or "", txt[-300:] if rc else "",
+                            hashlib.sha1(final or b"").hexdigest()[:12]))
+            step(["-j1"], "first build")
+            step([], "again")
+            t.write("conf/gen.in", "// gen 1\n")
+            step(["-j1"], "after editing the source of the generated header named in the dyndep file")
+            step([], "again")
+            t.touch(P["hdr2"])
+            step([], "after touching a header named in the dyndep file")
+            t.rm("o/x.mod")
+            step([], "after deleting the implicit output named in the dyndep file")
+            step([], "again")
+            results[variant] = seq
+        finally:
+            t.close()
+    ctx.evaluations += 2
+    ctx.count("entry_point_scenarios_dyndep")
+    for x, y in zip(results["canonical"], results["respelled"]):
+        if x[4] or y[4]:
+            ctx.violation("C14/entry-points/sanitizer/" + (x[4] or y[4]), "dyndep scenario %d step %s" % (seed, x[0]), rep)
+            return
+        if (x[1], x[2], x[3], x[6]) != (y[1], y[2], y[3], y[6]):
+            ctx.violation("C14/entry-points/dyndep/%s" % x[0].split(",")[0].replace(" ", "-")[:60],
+                          "dyndep scenario %d, step '%s': canonical spelling: exit %s ran %s final %s; respelled: exit %s ran %s final %s %s" %
+                          (seed, x[0], x[1], list(x[2]), x[6], y[1], list(y[2]), y[6], y[5]), rep)
+            return
+    ctx.count("entry_point_steps_equal", len(results["canonical"]))
 
 
 def c14_distinct_case(ctx, seed):
